@@ -192,6 +192,10 @@ def replay_model(chk, exe, model, variants=(0,), timeout=3000):
         ci = inputs_view(c) if "inputs" in c else None
         if ci is not None:
             dcs.append((ci, driver_case(ci, 0, via="inputs")))
+        if len(c["calls"]) > 1 or len(dcs) % 7 == 0:
+            dm = driver_case(c, 0)
+            dm["moved"] = True
+            dcs.append((c, dm))
     obs = vc.run_cases(exe, [d for _, d in dcs], chk.out, "replay_" + model, per_case_timeout=10)
     skipped = 0
     for (c, d), o in zip(dcs, obs):
@@ -468,7 +472,9 @@ def record_and_validate(chk, exe, n_parsers, profile, calls_per_parser=(1, 1)):
             dcases.append(dict(cfg=cfg, env=env, calls=[rand_argv(rng, cfg, profile) for _ in range(k)]))
     for k, d in enumerate(dcases):
         d["via"] = "inputs" if (k % 4 == 3 and not profile.get("long")) else "argv"
-    obs = vc.run_cases(exe, [dict(cfg=d["cfg"], env=d["env"], calls=d["calls"], via=d["via"]) for d in dcases], chk.out, "record", per_case_timeout=10)
+    for k, d in enumerate(dcases):
+        d["moved"] = (k % 5 == 2)        # every fifth parser is moved (constructed / assigned) before each call
+    obs = vc.run_cases(exe, [dict(cfg=d["cfg"], env=d["env"], calls=d["calls"], via=d["via"], moved=d["moved"]) for d in dcases], chk.out, "record", per_case_timeout=10)
     execs = []
     meta = []
     for d, o in zip(dcases, obs):
@@ -507,7 +513,7 @@ def record_and_validate(chk, exe, n_parsers, profile, calls_per_parser=(1, 1)):
     for k, matched, path, why in rej:
         d, o = meta[k]
         ev = execs[k][min(matched, len(execs[k]) - 1)]
-        wit = dict(cfg=d["cfg"], env=d["env"], calls=d["calls"][:matched + 1], via=d["via"])
+        wit = dict(cfg=d["cfg"], env=d["env"], calls=d["calls"][:matched + 1], via=d["via"], moved=d["moved"])
         observed = ev["oc"] if ev["oc"] not in ("ok", "error") else ("accepted" if ev["oc"] == "ok" else "rejected")
         chk.diverge(("Reparse/" if matched > 0 else "") + "Trace", observed, wit,
                     "recorded parse call %d rejected by OptTrace (%s): argv=%s env=%s decl=%s -> %s %s" % (
